@@ -363,6 +363,13 @@ def extract_fn(relpath, qual, ann):
             ed.add(m["span"][0], m["span"][1],
                    f"if !({args[0].strip()}) {{ return Err(core::convert::From::from({args[1].strip()})); }}", "R7")
     # M3 slice
+    if ann.get("slice_before"):
+        # M3 by anchor: everything from the unique top-level statement starting with the prefix is dropped (robust against statements
+        # added to or removed from the kept part)
+        hits = [j for j, x in enumerate(it["stmts"]) if re.sub(r"\s+", " ", src[x["span"][0]:x["span"][1]].decode()).startswith(ann["slice_before"])]
+        if len(hits) != 1:
+            raise Inconclusive(f"anchor lost: M3 slice_before={ann['slice_before']!r} matches {len(hits)} statements of {qual}")
+        ann = dict(ann, slice_k=hits[0])
     if ann.get("slice_k") is not None:
         k = int(ann["slice_k"])
         st = it["stmts"]
@@ -541,6 +548,11 @@ def apply_ref_closure_params(ed, closures, src, ann):
             if m:
                 ed.add(p["span"][0], p["span"][1], f"verif_r_{m.group(1)}", "R1", f"closure parameter `&{m.group(1)}` spelled as a reference + `let {m.group(1)} = *..`")
                 binds.append(f"let {m.group(1)} = *verif_r_{m.group(1)}; ")
+            elif t.startswith("(") and t.endswith(")"):
+                # tuple pattern: Verus accepts only variables as closure parameters; the same pattern is bound by a `let` (same binding modes)
+                nm = f"verif_cp{idx}_{len(binds)}"
+                ed.add(p["span"][0], p["span"][1], nm, "R1", f"closure parameter pattern `{t}` spelled as a variable + `let {t} = ..`")
+                binds.append(f"let {t} = {nm}; ")
         if binds:
             if c["body_is_block"]:
                 ed.add(c["body"][0] + 1, c["body"][0] + 1, " " + "".join(binds), None)
